@@ -82,6 +82,35 @@ Definition ops_C06 : list opdef := [
            | Some k, Some m => v_readheader (32, None, ver_of (fst m), 32, zlen (k_enc k (snd m)))
            | _, _ => VBad end
        | _ => VBad end) |};
+  (* widening: [kind, [msg, ...], chunk pattern, eof with last chunk, positions]: as pbcmpl.Roundtrip, but the
+     reader additionally returns (0, nil) — an empty chunk — before the chunks at the given positions *)
+  {| op_name := "pbcmpl.Roundtrip/empties";
+     op_run := fun a => match a with
+       | [k; ms; pat; wl; pos] => match as_z k, as_list ms, as_zs pat, as_bool wl, as_zs pos with
+           | Some k, Some ms, Some pat, Some wl, Some pos =>
+               match opt_all (map as_msg ms) with
+               | Some ms =>
+                   if c06_kind_ok k && forallb msg_ok ms && all_pos pat && all_nonneg pos then
+                     match model_wire k ms with
+                     | None => VPanic
+                     | Some wire =>
+                         match c_Stream k (insert_empties pos (chunks_of pat wire), term_of 0 wl) with
+                         | None => VPanic
+                         | Some (steps, r') => VL [vzs wire; VL (map v_step steps); vzs (rd_bytes r')]
+                         end
+                     end
+                   else VBad
+               | None => VBad end
+           | _, _, _, _, _ => VBad end
+       | _ => VBad end;
+     op_spec := fun_spec (fun a => match a with
+       | [k; ms; pat; wl; pos] => match as_z k, as_list ms with
+           | Some k, Some ms =>
+               match opt_all (map as_msg ms) with
+               | Some ms => VL [vzs (wire_of (k_enc k) ms); VL (map v_step (frames_steps (k_enc k) 0 ms)); vzs []]
+               | None => VBad end
+           | _, _ => VBad end
+       | _ => VBad end) |};
   (* widening: [kind, [msg, ...], chunk pattern, eof with last chunk] -> the frames are marshalled into one
      buffer, which is then walked with ReadHeader + io.ReadFull (no decoding):
      [[[n, errclass, ver, hsize, bsize, body bytes, refused] per step], left] *)
